@@ -11,8 +11,8 @@ Hash-seed nondeterminism: a Python `set` is iterated in an arbitrary order; temp
 a set-typed attribute are modelled by `emitLoop`, the `sort` filter by a stable case-insensitive sort.
 Import-free.
 -/
-namespace Pydjinni.Sys
-open Pydjinni.Gen
+namespace Pydjinni.SysC
+open Pydjinni.GenC
 
 /-! ### the `sort` filter -/
 
@@ -264,4 +264,4 @@ abbrev FMap (κ : Type) := Path → Option κ
 def applyWrites {κ : Type} (m : FMap κ) (ws : List (Path × κ)) : FMap κ :=
   ws.foldl (fun m w => fun p => if p = w.1 then some w.2 else m p) m
 
-end Pydjinni.Sys
+end Pydjinni.SysC
